@@ -46,57 +46,17 @@ func (e *Engine) tableOf(v ssa.Value, depth int) []*ssa.Function {
 		if !ok {
 			return nil
 		}
-		pt, ok := al.Type().(*types.Pointer)
-		if !ok {
-			return nil
+		out = tableFromAlloc(al)
+		return out
+	case *ssa.UnOp:
+		// the array value itself (range over an array literal loads it once)
+		if al, ok := x.X.(*ssa.Alloc); ok && x.Op == token.MUL {
+			out = tableFromAlloc(al)
+			return out
 		}
-		arr, ok := pt.Elem().Underlying().(*types.Array)
-		if !ok || arr.Len() == 0 || arr.Len() > maxTable {
-			return nil
-		}
-		if _, isFn := arr.Elem().Underlying().(*types.Signature); !isFn {
-			return nil
-		}
-		elems := make([]*ssa.Function, arr.Len())
-		for _, ref := range *al.Referrers() {
-			switch r := ref.(type) {
-			case *ssa.Slice:
-				if r != x {
-					return nil
-				}
-			case *ssa.IndexAddr:
-				k, ok := r.Index.(*ssa.Const)
-				if !ok || k.Value == nil {
-					return nil
-				}
-				i := k.Int64()
-				if i < 0 || i >= arr.Len() || elems[i] != nil {
-					return nil
-				}
-				refs := *r.Referrers()
-				if len(refs) != 1 {
-					return nil
-				}
-				st, ok := refs[0].(*ssa.Store)
-				if !ok || st.Addr != r {
-					return nil
-				}
-				fn := funcOfValue(st.Val)
-				if fn == nil {
-					return nil
-				}
-				elems[i] = fn
-			case *ssa.DebugRef:
-			default:
-				return nil
-			}
-		}
-		for _, f := range elems {
-			if f == nil {
-				return nil
-			}
-		}
-		out = elems
+		return nil
+	case *ssa.Alloc:
+		out = tableFromAlloc(x)
 		return out
 	case *ssa.Call:
 		g := x.Call.StaticCallee()
@@ -163,19 +123,24 @@ func (e *Engine) tableCall(call ssa.CallInstruction) ([]*ssa.Function, ssa.Value
 	if cc.IsInvoke() || cc.StaticCallee() != nil {
 		return nil, nil
 	}
-	u, ok := cc.Value.(*ssa.UnOp)
-	if !ok || u.Op != token.MUL {
-		return nil, nil
+	switch u := cc.Value.(type) {
+	case *ssa.UnOp:
+		if u.Op != token.MUL {
+			return nil, nil
+		}
+		ia, ok := u.X.(*ssa.IndexAddr)
+		if !ok {
+			return nil, nil
+		}
+		if t := e.tableOf(ia.X, 0); t != nil {
+			return t, ia.Index
+		}
+	case *ssa.Index:
+		if t := e.tableOf(u.X, 0); t != nil {
+			return t, u.Index
+		}
 	}
-	ia, ok := u.X.(*ssa.IndexAddr)
-	if !ok {
-		return nil, nil
-	}
-	t := e.tableOf(ia.X, 0)
-	if t == nil {
-		return nil, nil
-	}
-	return t, ia.Index
+	return nil, nil
 }
 
 // intTracked computes (once per function) the integer values worth tracking concretely: indices of table calls
@@ -319,4 +284,64 @@ func (e *Engine) stepInt(c *config, bo *ssa.BinOp) {
 		e.id(bo)
 		e.setFact(c, bo, abs)
 	}
+}
+
+// tableFromAlloc: al is a local array of function values each element of which is stored exactly once, at a
+// constant index, with a static function value; the array is otherwise only sliced whole, loaded whole, or read
+// through element addresses.
+func tableFromAlloc(al *ssa.Alloc) []*ssa.Function {
+	pt, ok := al.Type().(*types.Pointer)
+	if !ok {
+		return nil
+	}
+	arr, ok := pt.Elem().Underlying().(*types.Array)
+	if !ok || arr.Len() == 0 || arr.Len() > maxTable {
+		return nil
+	}
+	if _, isFn := arr.Elem().Underlying().(*types.Signature); !isFn {
+		return nil
+	}
+	elems := make([]*ssa.Function, arr.Len())
+	for _, ref := range *al.Referrers() {
+		switch r := ref.(type) {
+		case *ssa.Slice:
+			if r.Low != nil || r.High != nil || r.Max != nil {
+				return nil
+			}
+		case *ssa.UnOp:
+			if r.Op != token.MUL {
+				return nil
+			}
+		case *ssa.IndexAddr:
+			k, isK := r.Index.(*ssa.Const)
+			stored := false
+			for _, rr := range *r.Referrers() {
+				if st, ok := rr.(*ssa.Store); ok && st.Addr == r {
+					stored = true
+					if !isK || k.Value == nil {
+						return nil // a store at a computed index: not a static table
+					}
+					i := k.Int64()
+					if i < 0 || i >= arr.Len() || elems[i] != nil {
+						return nil
+					}
+					fn := funcOfValue(st.Val)
+					if fn == nil {
+						return nil
+					}
+					elems[i] = fn
+				}
+			}
+			_ = stored
+		case *ssa.DebugRef:
+		default:
+			return nil
+		}
+	}
+	for _, f := range elems {
+		if f == nil {
+			return nil
+		}
+	}
+	return elems
 }
